@@ -61,6 +61,7 @@ theorem eval_rewritten_text (look : Key → Option Bool) (key : Nat → Key) (v 
   have hparse := parse_render look key v e hv
   simp only [pyEval, hlex, hparse, V3.truthy_ofBool]
 
+set_option maxRecDepth 8192 in
 example : pyEval (fun _ => some true) (exprText (fun i => (Key.mk ['1'] ['a'] [Char.ofNat (120 + i)]).tmpl)
     (BExpr.and (.or (.atom 0) (.atom 1)) (.atom 2)).render) = some true := by
   decide
@@ -105,7 +106,12 @@ theorem pre_initial_satisfied (c : Ctx) (t : Trig) (hoff : t.off ≠ .none) (hpr
 example : (Trig.mk "a".toList (.rel (-2)) "succeeded".toList).initSat ⟨1, 1, 1, renderInt⟩ = true := by
   decide
 
-/-! ### 4. Without `NoCollision` the statement is false on the current code -/
+/-! ### 4. The statement without `NoCollision`
+
+`anchoredRewrite` is regenerated on every run by probing the real `set_conditional_expr`: `false`
+for the `\\b<msg>\\b` patterns, `true` once operands are matched only between operators
+(findings/C13-fix-1.diff).  Exactly one of the two theorems below has a satisfiable hypothesis. -/
+open CylcModel.Generated.PrereqTemplates (anchoredRewrite)
 
 /-- the full-strength statement: no collision hypothesis -/
 def prereq_sem_full : Prop :=
@@ -113,19 +119,47 @@ def prereq_sem_full : Prop :=
     observe (build c trigs e.render) ops =
       (specTrace (lookFn (buildSat c trigs)) ops).map fun σ => some (truthOf c trigs e σ)
 
-/-- `foo | foo[-P2] => bar` at cycle 1 (initial point 1), triggers in the order (foo, foo[-P2]):
-`\b1/foo succeeded\b` also matches inside `-1/foo succeeded`; the pre-initial (satisfied)
-`-1/foo` is lost and `is_satisfied()` is `False` although the expression is true. -/
-theorem prereq_sem_counterexample : ¬ prereq_sem_full := by
-  intro hfull
-  have h := hfull ⟨1, 1, 1, renderInt⟩
-    [⟨"foo".toList, .none, "succeeded".toList⟩, ⟨"foo".toList, .rel (-2), "succeeded".toList⟩]
-    (.or (.atom 0) (.atom 1))
-    ⟨by decide, by
-      intro j hj
-      have : j = 0 ∨ j = 1 := by simp at hj; omega
-      rcases this with rfl | rfl <;> decide, by decide, by decide⟩ []
-  revert h
+/-- With the `\\b` patterns the full statement is false.  `foo | foo[-P2] => bar` at cycle 1
+(initial point 1), triggers in the order (foo, foo[-P2]): `\\b1/foo succeeded\\b` also matches
+inside `-1/foo succeeded`; the pre-initial (satisfied) `-1/foo` is lost and `is_satisfied()` is
+`False` although the expression is true. -/
+theorem prereq_sem_counterexample : anchoredRewrite = false → ¬ prereq_sem_full := by
+  first
+  | (intro hA; exact absurd hA (by decide))      -- the source no longer uses the `\\b` patterns
+  | (intro _ hfull
+     have h := hfull ⟨1, 1, 1, renderInt⟩
+       [⟨"foo".toList, .none, "succeeded".toList⟩, ⟨"foo".toList, .rel (-2), "succeeded".toList⟩]
+       (.or (.atom 0) (.atom 1))
+       ⟨by decide, by
+         intro j hj
+         have : j = 0 ∨ j = 1 := by simp at hj; omega
+         rcases this with rfl | rfl <;> decide, by decide, by decide⟩ []
+     revert h
+     decide)
+
+/-- distinct upstream outputs have distinct `point/task output` texts -/
+def DistinctMsgs (c : Ctx) (trigs : List Trig) : Prop :=
+  ((keysOf (buildSat c trigs)).map Key.msg).Nodup
+
+instance (c : Ctx) (trigs : List Trig) : Decidable (DistinctMsgs c trigs) := by
+  unfold DistinctMsgs; infer_instance
+
+/-- With anchored patterns `NoCollision` always holds, hence the full statement: for every
+dependency (messages free of `& | ( )` and of quote characters, distinct texts, every trigger
+used) and every operation sequence, `is_satisfied()` is the expression's truth. -/
+theorem prereq_sem_anchored (hA : anchoredRewrite = true) (c : Ctx) (trigs : List Trig) (e : BExpr)
+    (h : Hyp c trigs e) (hd : DistinctMsgs c trigs) (ops : List Op) :
+    observe (build c trigs e.render) ops =
+      (specTrace (lookFn (buildSat c trigs)) ops).map fun σ => some (truthOf c trigs e σ) :=
+  prereq_sem_partial c trigs e h
+    (noCollision_of_anchored hA _ (fun k hk => by
+      obtain ⟨t, ht, rfl⟩ := (mem_keysOf_buildSat c trigs k).mp hk
+      exact ⟨h.sep t ht, h.quote t ht⟩) hd) ops
+
+-- the collision witness of the counterexample meets every hypothesis of `prereq_sem_anchored`
+-- except the regenerated constant
+example : DistinctMsgs ⟨1, 1, 1, renderInt⟩
+    [⟨"foo".toList, .none, "succeeded".toList⟩, ⟨"foo".toList, .rel (-2), "succeeded".toList⟩] := by
   decide
 
 end CylcModel.C13
